@@ -208,6 +208,33 @@ static void c16_case(uint64_t idx, rng_t *r) {
         size_t grc = varintRLEGetRunCount(body, ret - hl);
         M16(grc == runs, "RLE.GetRunCount", "runs %zu accessor %zu", runs, grc);
         free(body);
+        if (!hdr && n >= 4 && n < (1u << 20)) {
+            /* a header-less stream written in two appended calls (the cut may fall inside a run of equal values): the run
+             * counter over the whole stream reports the runs of both chunks */
+            size_t cut = 1 + (size_t)((a[0] ^ (uint64_t)n * 2654435761u) % (n - 1));
+            if ((a[0] & 3) == 0) { /* prefer a cut inside a run, if there is one */
+                for (size_t i = 1; i < n; i++) if (a[i] == a[i - 1]) { cut = i; break; }
+            }
+            uint8_t *two = malloc(scratch_size(n) + 64);
+            varintRLEMeta m1, m2;
+            memset(&m1, 0, sizeof m1);
+            memset(&m2, 0, sizeof m2);
+            g_ctx = "varintRLEEncode";
+            size_t l1 = varintRLEEncode(two, a, cut, &m1);
+            size_t l2 = varintRLEEncode(two + l1, a + cut, n - cut, &m2);
+            uint8_t *both = exact_copy(two, l1 + l2);
+            g_ctx = "varintRLEGetRunCount";
+            size_t g2 = varintRLEGetRunCount(both, l1 + l2);
+            M16(g2 == m1.runCount + m2.runCount, "RLE.GetRunCount(appended-chunks)", "n=%zu cut %zu: chunks hold %zu + %zu runs, accessor %zu", n, cut, m1.runCount, m2.runCount, g2);
+            uint64_t *o2 = malloc(n * 8);
+            g_ctx = "varintRLEDecode";
+            size_t d2 = varintRLEDecode(both, o2, n);
+            M16(d2 == n && !memcmp(o2, a, n * 8), "RLE.Decode(appended-chunks)", "n=%zu cut %zu decoded %zu", n, cut, d2);
+            free(o2);
+            free(both);
+            free(two);
+            STAT_INC("c16_rle_appended_chunk_streams");
+        }
         if (hdr) {
             M16(varintRLEGetCount(enc) == n && hv == n, "RLE.GetCount", "n=%zu accessor %zu", n, varintRLEGetCount(enc));
         } else {
